@@ -317,6 +317,23 @@ class CFG:
             return []
         if isinstance(st, ast.Match):
             raise NotImplementedError("match statement")
+        if isinstance(st, ast.Assert) and const_truth(st.test) is None:
+            # `assert c` is `if not c: raise AssertionError`: the condition is decomposed like any other test, the failing
+            # edges end in a synthetic raise, the passing edges continue through a node that carries the statement
+            t_out, f_out = self._cond(st.test, frm, ctx, st)
+            if f_out:
+                fail = ast.copy_location(ast.Raise(exc=ast.Call(func=ast.Name(id="AssertionError", ctx=ast.Load()), args=[], keywords=[]), cause=None), st)
+                ast.fix_missing_locations(fail)
+                fn = self._new("stmt", fail, [])
+                self._link(f_out, fn.idx)
+                for tgt in self._exc_targets(ctx):
+                    self._edge(fn.idx, tgt, "assert")
+            if not t_out:
+                return []
+            n = self._new("stmt", st, [])
+            self._link(t_out, n.idx)
+            self._implicit_exc(n, ctx)
+            return [(n.idx, "")]
         # simple statement
         n = self._new("stmt", st, [st])
         self._link(frm, n.idx)
